@@ -311,7 +311,9 @@ func (g *Graph) sccs(edgeOK func(*Edge) bool, nodeOK func(*Node) bool) map[*Node
 }
 
 // SCCs exposes the strongly connected components of the selected sub-graph (node -> component number).
-func (g *Graph) SCCs(edgeOK func(*Edge) bool, nodeOK func(*Node) bool) map[*Node]int { return g.sccs(edgeOK, nodeOK) }
+func (g *Graph) SCCs(edgeOK func(*Edge) bool, nodeOK func(*Node) bool) map[*Node]int {
+	return g.sccs(edgeOK, nodeOK)
+}
 
 // Cyclic returns the nodes lying on a cycle of the selected sub-graph (SCC of size > 1 or self loop).
 func (g *Graph) Cyclic(edgeOK func(*Edge) bool, nodeOK func(*Node) bool) map[*Node]bool {
